@@ -14,8 +14,7 @@ faithful memcached at wire level: the strict request parser of C02, the abstract
 
 Side conditions (`Client.WF`, Pymc/Model/WF.lean): every key that `check_key` accepts has a non-empty
 wire form (the empty key is the open finding of C02); `flags`, an integer `delta` and an integer `delay`
-are `≥ 0` (rendered unchecked by the client, rejected by a strict server); the call is not `raw`,
-`version`, `quit` (the last two are treated separately, see `C05_refines_version`).
+are `≥ 0` (rendered unchecked by the client, rejected by a strict server); the call is not `raw`.
 
 Everything holds for every configuration (prefix, key encoding, value encoding, default noreply),
 every server state, every key, every value — ANY bytes of ANY length — every integer.
@@ -254,30 +253,29 @@ theorem C05_arith_non_numeric_closes_socket (cfg : Cfg) (s : St) (incr : Bool) (
   simp [spec, hck, checkInteger, happ, sockAfter]
 example : parseNat (ofString "abc") = Option.none := by simp [ofString_eq]; decide
 
-/-- **version**: the reply is parsed to the version string; the server state afterwards is `settle s`
-(a delayed flush that has become due is applied by any request). -/
+/-- **version**: the reply line is parsed to the version string; like every request it lets the server
+apply a delayed flush that has become due (`(spec cfg s .version).1 = settle s`). -/
 theorem C05_refines_version (cfg : Cfg) (s : St) :
-    onServer cfg s .version = (settle s, (spec cfg s .version).2, true) := refines_version cfg s
-/-- **quit**: nothing is read, the client closes the socket. -/
+    onServer cfg s .version =
+      ((spec cfg s .version).1, (spec cfg s .version).2, sockAfter .version (spec cfg s .version).2) :=
+  refines_version cfg s
+/-- **quit**: nothing is read and the client closes the socket (`sockAfter .quit _ = false`). -/
 theorem C05_refines_quit (cfg : Cfg) (s : St) :
-    onServer cfg s .quit = (settle s, (spec cfg s .quit).2, false) := refines_quit cfg s
-
--- `ApiSpec.spec` returns `s` (not `settle s`) for `version`/`quit`; the full-strength statement
---   onServer cfg s .version = ((spec cfg s .version).1, (spec cfg s .version).2, true)
--- is therefore FALSE when a delayed flush is due:
-/-- counterexample to state equality for `version`: a due delayed flush. -/
-theorem C05_version_state_partial :
-    (onServer {} { items := [([107], ⟨0, 0, [], 1⟩)], now := 10, flushAt := some 5 } .version).1 ≠
-    (spec {} { items := [([107], ⟨0, 0, [], 1⟩)], now := 10, flushAt := some 5 } .version).1 := by
-  rw [refines_version]
-  intro h
-  have := congrArg St.items h
-  simp [settle, spec] at this
+    onServer cfg s .quit =
+      ((spec cfg s .quit).1, (spec cfg s .quit).2, sockAfter .quit (spec cfg s .quit).2) :=
+  refines_quit cfg s
+/-- a due delayed flush is applied by `version`, on both sides alike; the version string comes back -/
+example : onServer {} { items := [([107], ⟨0, 0, [], 1⟩)], now := 10, flushAt := some 5 } .version =
+    ({ items := [], now := 10, flushAt := Option.none }, .ok (.bytes (ofString "1.6.21-ref")), true) := by
+  rw [C05_refines_version]
+  simp [spec, AbsMap.apply, applyLoud, reqNoreply, settle, sockAfter, Server.versionLine, ofString_eq]
+  decide
+example : sockAfter .quit (.ok .none) = false := rfl
 
 /-- **All operations together.**  For every configuration, server state and call that satisfies the side
 conditions `WF`: running the call through client, wire and server gives the same resulting map and the
 same return value / exception as the contract on the abstract map, and the socket is open with nothing
-unread afterwards unless the contract says `MemcacheClientError`. -/
+unread afterwards unless the contract says `MemcacheClientError` or the call was `quit`. -/
 theorem C05_client_server_refines_absmap (cfg : Cfg) (s : St) (c : Call) (h : WF cfg c) :
     onServer cfg s c = ((spec cfg s c).1, (spec cfg s c).2, sockAfter c (spec cfg s c).2) :=
   refines_all cfg s c h
@@ -288,7 +286,10 @@ theorem C05_illegal_arguments_nothing_sent (cfg : Cfg) (s : St) (c : Call) (h : 
     (hi : (spec cfg s c).2 = .error .illegalInput) :
     onServer cfg s c = (s, .error .illegalInput, true) := by
   rw [refines_all cfg s c h, spec_illegal_state cfg s c hi, hi]
-  cases c <;> first | rfl | exact absurd h (by simp [WF])
+  cases c with
+  | quit => exact absurd hi (by simp [spec])
+  | raw a b => exact absurd h (by simp [WF])
+  | _ => rfl
 example : (spec {} {} (.get (.bytes [97, 32, 98]))).2 = .error .illegalInput := by
   have : checkKey {} (.bytes [97, 32, 98]) = .error .illegalInput := by decide
   simp [spec, fetchSpec, List.mapM_cons, this, bind, Except.bind]
@@ -303,17 +304,19 @@ theorem C05_history (cfg : Cfg) (s : St) (h : History) (hwf : ∀ p ∈ h, WF cf
 
 example : ∀ p ∈ ([(0, .store .set (.bytes [107]) (.bytes [13, 10]) (.int 5) (some false) Option.none Option.none),
     (7, .get (.bytes [107])), (0, .arith true (.bytes [107]) (.int 1) false),
-    (1, .flushAll (.int 0) Option.none)] : History), WF {} p.2 := by
+    (1, .flushAll (.int 0) Option.none), (0, .version), (3, .quit)] : History), WF {} p.2 := by
   have hk : KeyOK {} (.bytes [107]) := by
     have : checkKey {} (.bytes [107]) = .ok [107] := by decide
     intro h; rw [this] at h; cases h
   intro p hp
   simp only [List.mem_cons, List.mem_nil_iff, or_false] at hp
-  rcases hp with rfl | rfl | rfl | rfl
+  rcases hp with rfl | rfl | rfl | rfl | rfl | rfl
   · exact ⟨hk, by intro x hx; cases hx⟩
   · exact hk
   · exact ⟨hk, by intro x hx; cases hx; decide⟩
   · intro x hx; cases hx; decide
+  · trivial
+  · trivial
 
 /-! ## 4. corollaries -/
 
